@@ -18,7 +18,7 @@ const SIGMA: [&str; 7] = ["?", "#", "&", "=", "a", "b", "é"];
 /// compared exactly), and a multi-character key that gives a pattern-less removeparam rule an
 /// index token
 const SIGMA2: [&str; 9] = ["?", "#", "&", "=", "a", "b", "é", "A", "utm"];
-const POOL: [&str; 11] = [
+const POOL: [&str; 12] = [
     "*$removeparam=a",
     "*$removeparam=b",
     "||x.com^$removeparam=a,image",
@@ -31,7 +31,12 @@ const POOL: [&str; 11] = [
     "*$removeparam=a,script,~image",
     // `important` on a removeparam rule does not make it a blocking rule
     "*$removeparam=b,important",
+    // removeparam next to another value-carrying modifier: the parser refuses the line; whether it
+    // counts as absent or as a removeparam rule for ITS parameter (`a`) is not pinned - it never
+    // removes the other option's value (`b`)
+    "*$removeparam=a,redirect-rule=b",
 ];
+const TWO_MODIFIERS: &str = "*$removeparam=a,redirect-rule=b";
 
 /// Independent applicability of the pool's removeparam rules (written from the option semantics,
 /// not taken from the real matcher): the parameter a rule removes if it applies to (type, source).
@@ -135,8 +140,16 @@ fn check_one_at(base: &str, s: &Subject, suffix: &str, ty: &str, src: &str, l: &
         let names: Vec<String> = s.texts.iter().filter_map(|r| removes(r, ty, src)).map(|n| n.to_string()).collect();
         let blocked_important = s.texts.contains(&"||x.com^$important");
         let exp = if blocked_important { None } else { ns::spec_removeparam(&url, &names) };
+        // the second admissible reading of a two-modifier line: a removeparam rule for its own name
+        let exp2 = if s.texts.contains(&TWO_MODIFIERS) && !blocked_important && ["document", "subdocument", "xhr"].contains(&ty) {
+            let mut n2 = names.clone();
+            n2.push("a".to_string());
+            ns::spec_removeparam(&url, &n2)
+        } else {
+            exp.clone()
+        };
         l.compared += 1;
-        if g.rewritten != exp {
+        if g.rewritten != exp && g.rewritten != exp2 {
             l.mismatch(Mismatch {
                 sig: classify("rewritten-url.rule-applicability", &url),
                 what: format!("rules {:?} url {:?} type {} source {}: option semantics say the rewrite is {:?}, engine gave {:?}", s.texts, url, ty, src, exp, g.rewritten),
